@@ -56,7 +56,7 @@ Fixpoint dirs_eqb (a b : list (list (bytes * (node * jobj)))) : bool :=
   end.
 """
 
-NAMES = ["a", "b", "é", "é", "Å", "Å", "dir", "x y", "ñ", "ñ", "", "7:a,"]
+NAMES = ["a", "b", "caf\u00e9.txt", "cafe\u0301.txt", "\u00c5", "A\u030a", "\u212b", "dir", "x y", "\u00f1", "n\u0303", "", "7:a,"]
 OV = ["true", "false", "only-files"]
 
 
@@ -338,6 +338,14 @@ def one_history(ctx, i, terms, info):
                 namex = pick_name()
                 dst = r.choice([d, d, (d + 1) % ndirs, (d + 2) % ndirs])
                 newx = r.choice([None, None, namex, r.choice(NAMES), r.choice(sorted(before[dst]) or NAMES)])
+                if r.random() < 0.3:
+                    # a rename inside one directory to another (or the same) spelling of the same normalised name
+                    if existing and r.random() < 0.8:
+                        namex = r.choice(existing)
+                        namex = r.choice([x for x in NAMES if D.nfc(x) == namex] or [namex])
+                    dst = d
+                    newx = r.choice([x for x in NAMES if D.nfc(x) == D.nfc(namex)] or [namex])
+                    ctx.count("move:same-dir-equivalent-spelling" if newx != namex else "move:same-dir-identical-spelling")
                 desc = [kind, d, namex, dst, newx, ov]
                 res = D.outcome(defer_call(lambda: dn.move_child_to(namex, dirs[dst], newx, overwrite=ov_value(ov))))
                 want = ref.move(d, D.nfc(namex), dst, D.nfc(newx) if newx is not None else D.nfc(namex), ov, now)
@@ -406,6 +414,14 @@ def judge(ctx, case, desc, kind, ov, got, want, before, after, ref, d, now):
                     ctx.oracle_fail("no-overwrite-replaced-entry" if ov == "false" else "only-files-replaced-directory",
                                     "overwrite=%s: entry %r of directory %d was replaced or removed" % (ov, name, dst),
                                     case=case, expected=[obs, md], observed=after[dst].get(name))
+    # (2b) a rename onto (another spelling of) the same normalised name in the same directory keeps the child
+    if kind == "move" and desc[1] == desc[3] and D.nfc(desc[4] if desc[4] is not None else desc[2]) == D.nfc(desc[2]):
+        name = D.nfc(desc[2])
+        if name in before[desc[1]] and after[desc[1]].get(name) != before[desc[1]][name]:
+            ctx.oracle_fail("rename-to-equivalent-spelling-lost-or-changed-child",
+                            "move_child_to(%r -> %r) inside one directory: both spell the normalised name %r, yet the entry was %s"
+                            % (desc[2], desc[4], name, "removed" if name not in after[desc[1]] else "changed"),
+                            case=case, expected=before[desc[1]][name], observed=after[desc[1]].get(name))
     # (3) a failed operation changes nothing; a failed move keeps the child under its old name
     if got[0] == "err" and after != before:
         ctx.oracle_fail("failed-rename-lost-or-changed-link" if kind == "move" else "failed-edit-changed-directory",
